@@ -17,12 +17,39 @@
 //! sampled: `detect_cycles` non-empty iff the contract's own DFS finds a cycle; every reported cycle is a
 //! simple cycle of the edge set; `would_create_cycle(a, b)` iff `a == b` or `b` reaches `a`; for each
 //! victim policy `DeadlockDetector::detect` reports iff a cycle exists and names a victim of the cycle.
+//!
+//! Part 4 - the PARTICIPANT API (`TxParticipant::{prepare, commit, abort, cleanup_stale}`), the layer that turns the
+//! messages of the protocol into lock operations (parts 1-3 drive `LockManager` directly, where the caller keeps the
+//! handle; here the participant keeps it in its prepared table).  Scripts over the alphabet
+//!   prepare(tx, S) for every non-empty key subset S -- the same (tx, S) may be delivered a second and a third time
+//!   (retransmission), also with a different key set --, commit(tx), abort(tx), cleanup_stale(0 s) (= the prepare
+//!   timeout has elapsed for every prepared transaction; 0 s is the smallest timeout, so no sleeping), cleanup_stale(1 h)
+//!   (= it has elapsed for nobody); a prepare by another transaction on the same keys is just another letter.
+//! Ghost model: `tx -> keys` of the transactions that are prepared and not finished; a GRANTED prepare adds its keys to
+//! the transaction's set (the coordinator was told Yes for them, they stay locked until the transaction finishes), a
+//! refused prepare changes nothing (all-or-nothing), commit / abort / timeout remove the transaction.  After EVERY
+//! step the whole public view must equal the model: `locks.is_locked` / `locks.lock_holder` per key,
+//! `locks.active_lock_count`, `locks.keys_for_transaction` per transaction, `get_awaiting_decision`,
+//! `prepared_count`; the vote of a prepare must be Yes iff no requested key is held by ANOTHER prepared transaction,
+//! otherwise Conflict naming one of the holders; after the last step a FRESH transaction prepares each key on its own:
+//! granted iff the model says the key is free (in particular every key of a committed / aborted / timed out
+//! transaction that nobody else took), refused with the holder's id otherwise.
+//! The participant has no wait-for graph (it calls `try_lock`, not `try_lock_with_wait_tracking`): that half of C12 is
+//! not observable through this API and stays with part 1.
+//!  * C12.participant.no_lock_left     scripts in which every granted re-prepare of an already prepared transaction
+//!                                     asks for at least the keys it already holds (same set = retransmission, or a superset)
+//!  * C12.participant.rekeyed_prepare  the same clause for the scripts in which a granted re-prepare DROPS a key the
+//!                                     transaction already holds (prepare(T,{a}) .. prepare(T,{b})): T then holds {b} or
+//!                                     {a,b} (the property leaves that open; the engine's choice becomes the model) and
+//!                                     must hold nothing once it is finished.
 use crate::fw::{no_panic, Report, Rng, Tier};
 use serde_json::{json, Value};
 use std::collections::{BTreeMap, BTreeSet, HashMap};
 use std::time::Duration;
 use tensor_chain::deadlock::{DeadlockDetector, DeadlockDetectorConfig, VictimSelectionPolicy, WaitForGraph};
 use tensor_chain::distributed_tx::{KeyLock, LockManager, SerializableLockState};
+use tensor_chain::{PrepareRequest, PrepareVote, Transaction, TxParticipant};
+use tensor_store::{SparseVector, TensorStore};
 
 const TXS: [u64; 3] = [1, 2, 3];
 const KEYS: [&str; 3] = ["a", "b", "c"];
@@ -36,6 +63,8 @@ const REPINV: &str = "C12.rep_inv";
 const CYCLE: &str = "C12.cycle.iff";
 const VICTIM: &str = "C12.victim.in_cycle";
 const EXPIRY: &str = "C12.expiry.arith";
+const PART: &str = "C12.participant.no_lock_left";
+const PART_REKEY: &str = "C12.participant.rekeyed_prepare";
 
 // ------------------------------------------------------------------------------------------------
 // operations
@@ -484,6 +513,199 @@ fn eval_expiry(acq: u64, tmo: u64) -> (bool, String) {
     (got == Ok(want), format!("is_expired(acquired {acq}, timeout {tmo}) = {got:?}, expected {want}"))
 }
 
+
+// ------------------------------------------------------------------------------------------------
+// part 4: the participant API
+
+#[derive(Clone, Copy, Debug, PartialEq, Eq)]
+enum POp {
+    Prepare(u64, u8),
+    Commit(u64),
+    Abort(u64),
+    /// cleanup_stale(0 s): the prepare timeout has elapsed for every prepared transaction
+    Timeout,
+    /// cleanup_stale(3600 s): it has elapsed for nobody
+    NoTimeout,
+}
+
+fn pop_json(op: POp) -> Value {
+    match op {
+        POp::Prepare(t, m) => json!(["prepare", t, m]),
+        POp::Commit(t) => json!(["commit", t]),
+        POp::Abort(t) => json!(["abort", t]),
+        POp::Timeout => json!(["cleanup_stale", 0]),
+        POp::NoTimeout => json!(["cleanup_stale", 3600]),
+    }
+}
+
+fn pop_parse(v: &Value) -> Result<POp, String> {
+    let a = v.as_array().ok_or("op must be an array")?;
+    let name = a.first().and_then(Value::as_str).ok_or("op name")?;
+    let n = |i: usize| a.get(i).and_then(Value::as_u64).ok_or_else(|| format!("op {name}: argument {i}"));
+    Ok(match name {
+        "prepare" => { let m = n(2)?; if m == 0 || m >= 1 << KEYS.len() { return Err("prepare: key mask must be 1..=7".into()); } POp::Prepare(n(1)?, m as u8) },
+        "commit" => POp::Commit(n(1)?),
+        "abort" => POp::Abort(n(1)?),
+        "cleanup_stale" => if n(1)? == 0 { POp::Timeout } else { POp::NoTimeout },
+        _ => return Err(format!("unknown participant op {name}")),
+    })
+}
+
+fn palphabet(ntx: usize, nkeys: usize) -> Vec<POp> {
+    let mut v = vec![];
+    let txs = &TXS[..ntx];
+    for &t in txs { for m in 1u8..(1 << nkeys) { v.push(POp::Prepare(t, m)); } }
+    for &t in txs { v.push(POp::Commit(t)); }
+    for &t in txs { v.push(POp::Abort(t)); }
+    v.push(POp::Timeout);
+    v.push(POp::NoTimeout);
+    v
+}
+
+/// ids of the fresh transactions that probe the keys after the last step
+const PROBE_TX: u64 = 100;
+
+type PModel = BTreeMap<u64, BTreeSet<String>>;
+
+#[derive(PartialEq, Eq, Debug)]
+struct PView {
+    /// (is_locked, lock_holder) per key
+    keys: Vec<(bool, Option<u64>)>,
+    active: usize,
+    /// keys_for_transaction per transaction of TXS, as a set
+    rev: Vec<BTreeSet<String>>,
+    awaiting: BTreeSet<u64>,
+    prepared_count: usize,
+}
+
+fn p_holder(m: &PModel, k: &str) -> Option<u64> { m.iter().find(|(_, ks)| ks.contains(k)).map(|(t, _)| *t) }
+
+fn p_expect(m: &PModel) -> PView {
+    let keys: Vec<(bool, Option<u64>)> = KEYS.iter().map(|k| { let h = p_holder(m, k); (h.is_some(), h) }).collect();
+    PView { active: keys.iter().filter(|x| x.0).count(), keys,
+            rev: TXS.iter().map(|t| m.get(t).cloned().unwrap_or_default()).collect(),
+            awaiting: m.keys().copied().collect(), prepared_count: m.len() }
+}
+
+fn p_observe(p: &TxParticipant) -> PView {
+    PView { keys: KEYS.iter().map(|k| (p.locks.is_locked(k), p.locks.lock_holder(k))).collect(),
+            active: p.locks.active_lock_count(),
+            rev: TXS.iter().map(|&t| p.locks.keys_for_transaction(t).into_iter().collect()).collect(),
+            awaiting: p.get_awaiting_decision().into_iter().collect(), prepared_count: p.prepared_count() }
+}
+
+fn p_request(tx: u64, keys: &[String]) -> PrepareRequest {
+    PrepareRequest { tx_id: tx, coordinator: "coord".to_string(),
+                     operations: keys.iter().map(|k| Transaction::Put { key: k.clone(), data: vec![tx as u8] }).collect(),
+                     delta_embedding: SparseVector::from_dense(&[1.0, 0.0]), timeout_ms: 5000 }
+}
+
+struct PEval { ok: bool, detail: String, rekeyed: bool, nontrivial: bool }
+
+/// Execute the script on a fresh participant (over `store`, emptied first) and evaluate the clause of its LAST step.
+/// None = a proper prefix already diverges from the model (that prefix is its own, shorter case).
+fn eval_pseq(store: &TensorStore, seq: &[POp]) -> Option<PEval> {
+    for k in store.scan("") { store.delete(&k).expect("reset store"); }
+    let p = TxParticipant::new(store.clone());
+    let mut m = PModel::new();
+    let mut rekeyed = false;
+    let mut nontrivial = false;
+    let last = seq.len().checked_sub(1)?;
+    for (i, &op) in seq.iter().enumerate() {
+        let pre = m.clone();
+        let mut why: Vec<String> = vec![];
+        if i == last { nontrivial = !pre.is_empty(); }
+        match op {
+            POp::Prepare(tx, mask) => {
+                let keys = keys_of(mask);
+                let blockers: BTreeSet<u64> = keys.iter().filter_map(|k| p_holder(&pre, k)).filter(|h| *h != tx).collect();
+                let vote = p.prepare(p_request(tx, &keys));
+                match (&vote, blockers.is_empty()) {
+                    (PrepareVote::Yes { .. }, true) => {
+                        let drops = pre.get(&tx).is_some_and(|held| !held.iter().all(|k| keys.contains(k)));
+                        if drops {
+                            // The property does not say whether a transaction that is prepared again with OTHER keys keeps the
+                            // keys only its earlier request locked (union) or gives them back at once (latest request only): both
+                            // are accepted, whichever the engine shows now is the model from here on.
+                            rekeyed = true;
+                            let mut latest = m.clone();
+                            latest.insert(tx, keys.iter().cloned().collect());
+                            if p_observe(&p) == p_expect(&latest) { m = latest; } else { m.entry(tx).or_default().extend(keys.iter().cloned()); }
+                        } else {
+                            m.entry(tx).or_default().extend(keys.iter().cloned());
+                        }
+                    },
+                    (PrepareVote::Conflict { conflicting_tx, .. }, false) if blockers.contains(conflicting_tx) => {},
+                    _ => why.push(format!("prepare({tx}, {keys:?}) voted {}, the keys are held by other prepared transactions {blockers:?}: expected {}",
+                                          match &vote { PrepareVote::Yes { .. } => "Yes".to_string(), PrepareVote::Conflict { conflicting_tx, .. } => format!("Conflict({conflicting_tx})"), o => format!("{o:?}") },
+                                          if blockers.is_empty() { "Yes".to_string() } else { "Conflict with one of them".to_string() })),
+                }
+            },
+            POp::Commit(tx) => {
+                let r = p.commit(tx);
+                if pre.contains_key(&tx) && !r.success { why.push(format!("commit({tx}) of a prepared transaction failed: {:?}", r.error)); }
+                m.remove(&tx);
+            },
+            POp::Abort(tx) => { let _ = p.abort(tx); m.remove(&tx); },
+            POp::Timeout => {
+                let got: BTreeSet<u64> = p.cleanup_stale(Duration::ZERO).into_iter().collect();
+                let want: BTreeSet<u64> = pre.keys().copied().collect();
+                if got != want { why.push(format!("cleanup_stale(0 s) timed out {got:?}, prepared were {want:?}")); }
+                m.clear();
+            },
+            POp::NoTimeout => {
+                let got = p.cleanup_stale(Duration::from_secs(3600));
+                if !got.is_empty() { why.push(format!("cleanup_stale(3600 s) timed out {got:?}")); }
+            },
+        }
+        let (real, want) = (p_observe(&p), p_expect(&m));
+        if real != want { why.push(format!("after step #{i} {}: view {real:?} != model {want:?}", pop_json(op))); }
+        if i < last {
+            if !why.is_empty() { return None; }
+            continue;
+        }
+        // a fresh transaction on every key: granted iff the key is free
+        {
+            for (ki, k) in KEYS.iter().enumerate() {
+                let holder = p_holder(&m, k);
+                let vote = p.prepare(p_request(PROBE_TX + ki as u64, &[(*k).to_string()]));
+                let good = match (&vote, holder) {
+                    (PrepareVote::Yes { .. }, None) => true,
+                    (PrepareVote::Conflict { conflicting_tx, .. }, Some(h)) => *conflicting_tx == h,
+                    _ => false,
+                };
+                if !good {
+                    why.push(format!("after step #{i} {}: a fresh transaction preparing key {k:?} got {}, the model says the key is {}",
+                                     pop_json(op), match &vote { PrepareVote::Yes { .. } => "Yes".to_string(), PrepareVote::Conflict { conflicting_tx, .. } => format!("Conflict({conflicting_tx})"), o => format!("{o:?}") },
+                                     holder.map_or("free (its holder committed / aborted / timed out, or it was never locked)".to_string(), |h| format!("held by prepared transaction {h}"))));
+                }
+            }
+        }
+        return Some(PEval { ok: why.is_empty(), detail: why.join(" | "), rekeyed, nontrivial });
+    }
+    None
+}
+
+fn pseq_json(seq: &[POp]) -> Value { json!({"pops": seq.iter().map(|o| pop_json(*o)).collect::<Vec<_>>()}) }
+
+/// true = the script is a case and its clause holds (only such scripts are extended)
+fn pfeed(rep: &mut Report, store: &TensorStore, seq: &[POp]) -> bool {
+    let Some(e) = eval_pseq(store, seq) else { return false };
+    rep.eval(e.nontrivial);
+    rep.check(if e.rekeyed { PART_REKEY } else { PART }, e.ok, &|| pseq_json(seq), &|| e.detail.clone());
+    e.ok
+}
+
+fn pdfs(rep: &mut Report, store: &TensorStore, alpha: &[POp], cur: &mut Vec<POp>, maxlen: usize, min_report: usize) {
+    for &op in alpha {
+        cur.push(op);
+        // scripts shorter than min_report were already evaluated by a wider enumeration
+        let go = if cur.len() >= min_report { pfeed(rep, store, cur) } else { true };
+        if go && cur.len() < maxlen { pdfs(rep, store, alpha, cur, maxlen, min_report); }
+        cur.pop();
+    }
+}
+
 // ------------------------------------------------------------------------------------------------
 
 pub fn run(tier: Tier, seed: u64) -> Report {
@@ -493,11 +715,15 @@ pub fn run(tier: Tier, seed: u64) -> Report {
     } else {
         "lock ops: every call sequence of length <= 3 over the full alphabet (68 ops: 3 tx x 3 keys, all 7 key subsets, try_lock / try_lock_with_wait_tracking / release / release_by_handle[_with_wait_cleanup] on each earlier grant or an unknown handle / cleanup_expired[_with_wait_cleanup] / expire key / expire tx / restore / add_wait) and every sequence of length 4 over the 3 tx x 2 keys sub-alphabet (43 ops), contract evaluated on the last call. cycles: every digraph without self loops on <= 4 transactions (4096 + 64 + 4 + 1) x 5 victim policies. expiry: 4 acquisition times x 5 timeouts"
     };
+    let dom = &format!("{dom}. participant: every script of length <= {} over the full participant alphabet (29 letters: prepare(tx, S) for 3 tx x 7 key subsets, commit / abort per tx, cleanup_stale(0 s), cleanup_stale(3600 s)), of length <= {} over the 3 tx x 2 keys sub-alphabet (17 letters) and of length <= {} over the 2 tx x 2 keys sub-alphabet (12 letters), a script being extended only while its clause holds; whole public view compared with the ghost model after every step, a fresh transaction prepares each key after the last step{}",
+        if thorough { 4 } else { 3 }, if thorough { 5 } else { 4 }, if thorough { 6 } else { 5 },
+        if thorough { "; plus 100000 seeded random scripts of length 6-10 over the full alphabet (every prefix evaluated; not exhaustive)" } else { "" });
     let mut rep = Report::new("c12_locks", dom, true, &[
         "tensor_chain::distributed_tx::LockManager::{with_default_timeout, try_lock, try_lock_with_wait_tracking, release, release_by_handle, release_by_handle_with_wait_cleanup, cleanup_expired, cleanup_expired_with_wait_cleanup, is_locked, lock_holder, active_lock_count, keys_for_transaction, lock_count_for_transaction, to_serializable, from_serializable}",
         "tensor_chain::distributed_tx::KeyLock::is_expired",
         "tensor_chain::deadlock::WaitForGraph::{add_wait, remove_transaction, detect_cycles, would_create_cycle, waiting_for, waiting_on, edge_count}",
         "tensor_chain::deadlock::DeadlockDetector::{detect, select_victim}",
+        "tensor_chain::distributed_tx::TxParticipant::{new, prepare, commit, abort, cleanup_stale, get_awaiting_decision, prepared_count}",
     ]);
     rep.declare(GRANT, "LockManager::{try_lock, try_lock_with_wait_tracking}");
     rep.declare(WAIT, "LockManager::try_lock_with_wait_tracking");
@@ -506,6 +732,8 @@ pub fn run(tier: Tier, seed: u64) -> Report {
     rep.declare(CYCLE, "WaitForGraph::{detect_cycles, would_create_cycle}, DeadlockDetector::detect");
     rep.declare(VICTIM, "DeadlockDetector::{detect, select_victim}");
     rep.declare(EXPIRY, "KeyLock::is_expired");
+    rep.declare(PART, "TxParticipant::{prepare, commit, abort, cleanup_stale} + LockManager::{is_locked, lock_holder, active_lock_count, keys_for_transaction}");
+    rep.declare(PART_REKEY, "TxParticipant::{prepare, commit, abort, cleanup_stale} after a re-prepare that drops a held key");
 
     // part 1: lock operations
     let full = alphabet(3, 3, 3);
@@ -556,10 +784,43 @@ pub fn run(tier: Tier, seed: u64) -> Report {
         rep.eval(true);
         rep.check(EXPIRY, ok, &|| json!({"acquired_at_ms": acq.to_string(), "timeout_ms": tmo.to_string()}), &|| d.clone());
     } }
+
+    // part 4: the participant API (one store, emptied before every script: creating a TensorStore is slow)
+    {
+        let store = TensorStore::new();
+        let mut cur = vec![];
+        let (l3, l32, l22) = if thorough { (4, 5, 6) } else { (3, 4, 5) };
+        // shortest scripts first, so that the first recorded failing cases are minimal
+        for len in 1..=l3 { pdfs(&mut rep, &store, &palphabet(3, 3), &mut cur, len, len); }
+        pdfs(&mut rep, &store, &palphabet(3, 2), &mut cur, l32, l3 + 1);
+        for len in (l32 + 1)..=l22 { pdfs(&mut rep, &store, &palphabet(2, 2), &mut cur, len, len); }
+        if thorough {
+            let full = palphabet(3, 3);
+            let mut rng = Rng(seed ^ 0xC12_9A87);
+            for _ in 0..100_000 {
+                let len = 6 + rng.below(5) as usize;
+                let mut seq: Vec<POp> = vec![];
+                while seq.len() < len {
+                    seq.push(full[rng.below(full.len() as u64) as usize]);
+                    if !pfeed(&mut rep, &store, &seq) { break; }
+                }
+            }
+        }
+        rep.sample(pseq_json(&[POp::Prepare(1, 0b011), POp::Prepare(1, 0b011), POp::Prepare(1, 0b011), POp::Commit(1), POp::Prepare(2, 0b001)]));
+        rep.sample(pseq_json(&[POp::Prepare(1, 0b001), POp::Prepare(2, 0b010), POp::Timeout, POp::Prepare(3, 0b011)]));
+    }
     rep
 }
 
 pub fn replay(ob: &str, case: &Value) -> Result<String, String> {
+    if let Some(ops) = case.get("pops") {
+        let seq: Vec<POp> = ops.as_array().ok_or("pops must be an array")?.iter().map(pop_parse).collect::<Result<_, _>>()?;
+        if seq.is_empty() { return Err("empty script".into()); }
+        let e = eval_pseq(&TensorStore::new(), &seq).ok_or("a proper prefix of this script already diverges from the model (it is its own case)")?;
+        let mine = if e.rekeyed { PART_REKEY } else { PART };
+        if ob != mine { return Err(format!("this script belongs to obligation {mine}, not {ob}")); }
+        return if e.ok { Ok(format!("view == model after every step of {} and the fresh prepares are granted exactly on the free keys", pseq_json(&seq))) } else { Err(e.detail) };
+    }
     if let Some(ops) = case.get("ops") {
         let seq: Vec<Op> = ops.as_array().ok_or("ops must be an array")?.iter().map(op_parse).collect::<Result<_, _>>()?;
         let (verdicts, _) = eval_seq(&seq).ok_or("the sequence refers to a handle that was never granted")?;
